@@ -426,7 +426,7 @@ theorem cryptoBox_eq (B : BoxOps) (rp ss : Key) (sk : Bytes) (hs : ss.secret = s
     (hn : nonce.length = 24) :
     cryptoBox B rp ss m nonce =
       .ok ((B.sealBox (B.beforenm sk rp.pub) nonce m).2 ++ (B.sealBox (B.beforenm sk rp.pub) nonce m).1) := by
-  simp [cryptoBox, secretKeyFrom, hs, nonceFrom, hn, CBOX_NONCE_LENGTH, Bind.bind, Res.bind]
+  simp [cryptoBox, secretKeyFrom, hs, nonceFrom, hn, Bind.bind, Res.bind]
 
 theorem cryptoBoxOpen_eq (B : BoxOps) (rs sp : Key) (sk : Bytes) (hs : rs.secret = some sk) (b nonce : Bytes)
     (hn : nonce.length = 24) (hb : 16 ≤ b.length) :
@@ -434,17 +434,18 @@ theorem cryptoBoxOpen_eq (B : BoxOps) (rs sp : Key) (sk : Bytes) (hs : rs.secret
       match B.openBox (B.beforenm sk sp.pub) nonce (b.drop 16) (b.take 16) with
       | none => .err .encryption
       | some m => .ok m := by
-  simp only [cryptoBoxOpen, secretKeyFrom, hs, nonceFrom, hn, CBOX_NONCE_LENGTH, CBOX_TAG_LENGTH, Bind.bind, Res.bind, if_true]
-  rw [if_neg (by omega), if_neg (by omega)]
+  simp only [cryptoBoxOpen, secretKeyFrom, hs, nonceFrom, hn, Bind.bind, Res.bind, if_true]
+  rw [if_neg (show ¬ b.length < 16 by omega), if_neg (show ¬ 16 > b.length by omega)]
+  split <;> simp_all
 
 theorem cryptoBoxOpen_ne_panic (B : BoxOps) (rs sp : Key) (b nonce : Bytes) : cryptoBoxOpen B rs sp b nonce ≠ .panic := by
   unfold cryptoBoxOpen secretKeyFrom nonceFrom
   cases rs.secret with
   | none => simp [Bind.bind, Res.bind]
   | some sk =>
-    by_cases hn : nonce.length = CBOX_NONCE_LENGTH
+    by_cases hn : nonce.length = 24
     · simp only [hn, if_true, Bind.bind, Res.bind]
-      by_cases hb : b.length < CBOX_TAG_LENGTH
+      by_cases hb : b.length < 16
       · simp [hb]
       · rw [if_neg hb, if_neg (by omega)]
         split <;> simp
@@ -456,10 +457,10 @@ theorem cryptoBoxOpen_short (B : BoxOps) (rs sp : Key) (b nonce : Bytes) (hb : b
   cases rs.secret with
   | none => exact ⟨_, rfl⟩
   | some sk =>
-    by_cases hn : nonce.length = CBOX_NONCE_LENGTH
+    by_cases hn : nonce.length = 24
     · refine ⟨.encryption, ?_⟩
       simp only [hn, if_true, Bind.bind, Res.bind]
-      rw [if_pos (by simpa [CBOX_TAG_LENGTH] using hb)]
+      rw [if_pos hb]
     · refine ⟨.invalidNonce, ?_⟩
       simp [hn, Bind.bind, Res.bind]
 
@@ -490,15 +491,15 @@ theorem box_open_only_sealed (B : BoxOps) (I : BoxIdeal B) (rs sp : Key) (sk : B
         exact I.auth _ _ _ _ _ hm
     · obtain ⟨e, he⟩ := cryptoBoxOpen_short B rs sp b nonce (by omega)
       rw [he] at h; cases h
-  · simp [cryptoBoxOpen, secretKeyFrom, hs, nonceFrom, hn, CBOX_NONCE_LENGTH, Bind.bind, Res.bind] at h
+  · simp [cryptoBoxOpen, secretKeyFrom, hs, nonceFrom, hn, Bind.bind, Res.bind] at h
 
 /-! ### sealed boxes -/
 
 theorem cryptoBoxSealOpen_ne_panic (B : BoxOps) (rs : Key) (c : Bytes) : cryptoBoxSealOpen B rs c ≠ .panic := by
   unfold cryptoBoxSealOpen
-  by_cases hc : c.length < CBOX_KEY_LENGTH + CBOX_TAG_LENGTH
+  by_cases hc : c.length < 48
   · simp [hc]
-  · have : ¬ CBOX_KEY_LENGTH > c.length := by omega
+  · have : ¬ 32 > c.length := by omega
     simp only [hc, this, if_false]
     split
     · simp
@@ -507,7 +508,7 @@ theorem cryptoBoxSealOpen_ne_panic (B : BoxOps) (rs : Key) (c : Bytes) : cryptoB
 theorem cryptoBoxSealOpen_short (B : BoxOps) (rs : Key) (c : Bytes) (hc : c.length < 48) :
     cryptoBoxSealOpen B rs c = .err .encryption := by
   unfold cryptoBoxSealOpen
-  rw [if_pos (by simpa [CBOX_KEY_LENGTH, CBOX_TAG_LENGTH] using hc)]
+  rw [if_pos hc]
 
 theorem seal_roundtrip (B : BoxOps) (L : BoxLaws B) (e r m : Bytes) :
     ∃ s, envCryptoBoxSeal B e (xpub B r) m = .ok s ∧ s.length = m.length + 48 ∧
@@ -519,19 +520,24 @@ theorem seal_roundtrip (B : BoxOps) (L : BoxLaws B) (e r m : Bytes) :
   have ht := L.tag_len (B.beforenm e (B.pub r)) (sealNonce B (B.pub e) (B.pub r)) m
   have hc := L.ct_len (B.beforenm e (B.pub r)) (sealNonce B (B.pub e) (B.pub r)) m
   refine ⟨_, ?_, ?_, rfl, ?_⟩
-  · simp only [envCryptoBoxSeal, castX25519, xpub, if_true, Res.ok_bind, cryptoBoxSeal, CBOX_KEY_LENGTH]
-    rw [if_neg (by simp [hp])]
-    rw [List.drop_left' hp, List.take_left' hp]
-    rw [cryptoBox_eq B _ _ e rfl m _ hnl]
-    rfl
+  · simp only [envCryptoBoxSeal, castX25519, xpub, if_true, Res.ok_bind, cryptoBoxSeal]
+    split
+    · next h => simp [hp] at h; exact absurd h (by omega)
+    · rw [List.drop_left' hp, List.take_left' hp]
+      rw [cryptoBox_eq B _ _ e rfl m _ hnl]
+      rfl
   · simp [hp, ht, hc]; omega
-  · simp only [envCryptoBoxSealOpen, castX25519, xfull, if_true, Res.ok_bind, cryptoBoxSealOpen, CBOX_KEY_LENGTH, CBOX_TAG_LENGTH]
-    rw [if_neg (by simp [hp, ht, hc]), if_neg (by simp [hp, ht, hc])]
+  · simp only [envCryptoBoxSealOpen, castX25519, xfull, if_true, Res.ok_bind, cryptoBoxSealOpen]
     rw [List.take_left' hp, List.drop_left' hp]
-    simp only [hp, ne_eq, not_true_eq_false, if_false]
-    rw [cryptoBoxOpen_eq B _ _ r rfl _ _ hnl (by simp [ht])]
-    rw [List.drop_left' ht, List.take_left' ht]
-    show (match B.openBox (B.beforenm r (B.pub e)) _ _ _ with | none => _ | some m => _) = _
-    rw [L.beforenm_comm r e, L.open_seal]
+    split
+    · next h => simp [hp, ht, hc] at h; exact absurd h (by omega)
+    · split
+      · next h => simp [hp, ht, hc] at h; exact absurd h (by omega)
+      · split
+        · next h => exact absurd hp h
+        · rw [cryptoBoxOpen_eq B _ _ r rfl _ _ hnl (by simp [ht])]
+          rw [List.drop_left' ht, List.take_left' ht]
+          show (match B.openBox (B.beforenm r (B.pub e)) _ _ _ with | none => _ | some m => _) = _
+          rw [L.beforenm_comm r e, L.open_seal]
 
 end Askar.Ecdh
